@@ -12,7 +12,7 @@ Items ==
       [] OTHER -> <<>>                    \* only the count is compared
 
 \* a constant-level law: evaluate it once
-ConstructionOnce == (kind = "titer" /\ L = 0) => ConstructionTruthful
+ConstructionOnce == (kind = "titer" /\ L = 0) => ConstructionTruthful /\ ClosedFormsAgree
 
 EmitIter ==
     Exhausted =>
